@@ -639,6 +639,18 @@ def r15_9(ctx, rep):
         raise MechanismMissing(R, "expected at least three is_equal convergence tests in _simplify_once, found %d" % n)
 
 
+@SPEC.rule(
+    "R15.10",
+    "simplification starts from the model alone: no function of model.py or alias_relation.py writes a module-level or class-level "
+    "container, is wrapped in a caching decorator or keeps a mutable default — what one model's simplify() learned (aliases, "
+    "eliminated names, constant values) must not be visible to the next model's",
+)
+def r15_10(ctx, rep):
+    from .c25 import module_state_free
+    module_state_free(ctx, rep, "R15.10", MODEL, "the CasADi model")
+    module_state_free(ctx, rep, "R15.10", "src/pymoca/backends/casadi/alias_relation.py", "the alias relation")
+
+
 # -- seeded variants ---------------------------------------------------------
 from ._mut import delete_stmt_where, replace_in_func, replace_stmt_where  # noqa: E402
 
